@@ -57,4 +57,11 @@ PROPS = {
                            'opcode <-> byte tables, immediates, per-op encode/decode, the byte iterators; sequence-level round trips are Verus lemmas over those tables; pinned-table comparison'},
     'C15': {'level': 'proof', 'verus_units': ['asm_core'], 'kani': [KANI_ASM_EFFECTS, KANI_ASM_BCA],
             'explanation': 'analyze(ops) returns exactly the union of the effect flags of the ops (all slices); bytes_contains_any is outside Verus (by_ref/take/for_each) and checked bounded'},
+    'C17': {'level': 'other', 'verus_units': ['hash_core'],
+            'explanation': 'partial: solution-set address: the address slice is sorted in place (a permutation) before hashing and sorted arrangements of a multiset are unique, '
+                           'hence order independence (Verus lemmas); from_solution_addrs / from_predicate_addrs / Program and Solution addresses verified against spec functions over an '
+                           'uninterpreted SHA-256 / postcard; predicate_encoded_size equals the documented size',
+            'not_covered': ['that the chunks fed to the hasher are the sorted addresses in order (Map adapter) - assumed', 'contract_addr::from_predicate_addrs_slice (chain + sort): assumed',
+                            'encode_predicate against the documented layout (iterator chains; Kani harness exhausted memory: 65 GB): assumed', 'postcard serialisation and SHA-256: external',
+                            'injectivity of the pre-hash encodings is not stated as an obligation']},
 }
